@@ -110,20 +110,33 @@ func RefLex(src string) ([]RTok, error) {
 				if src[j] == '\\' {
 					j++
 				}
-				if j < len(src) && src[j] == '\n' {
-					break
-				}
 				j++
 			}
 			if j >= len(src) || src[j] != '"' {
 				return toks, &RefLexError{"unterminated string", row, col}
 			}
 			lit := src[i : j+1]
-			v, err := strconv.Unquote(lit)
-			if err != nil {
-				return toks, &RefLexError{"invalid string literal " + lit, row, col}
+			// TypeShell's interpreted strings may span lines (the repository's own suite relies on it):
+			// escapes are decoded one by one, every other byte (also a line break) is kept
+			v := []byte{}
+			for rest := lit[1 : len(lit)-1]; len(rest) > 0; {
+				if rest[0] != '\\' {
+					v = append(v, rest[0])
+					rest = rest[1:]
+					continue
+				}
+				r, mb, tail, err := strconv.UnquoteChar(rest, '"')
+				if err != nil {
+					return toks, &RefLexError{"invalid string literal " + lit, row, col}
+				}
+				if mb {
+					v = append(v, string(r)...)
+				} else {
+					v = append(v, byte(r))
+				}
+				rest = tail
 			}
-			emit(RString, i, j+1, v)
+			emit(RString, i, j+1, string(v))
 			i = j + 1
 		case c == '`':
 			j := strings.IndexByte(src[i+1:], '`')
